@@ -341,7 +341,7 @@ def check_fmt(run, model, fmt, args, tag):
         exp = fmt % tuple(args)
     except Exception:
         exp = None
-    ans = model.call("pyfmt", fmt, *[a.to_bytes(4, "big") for a in args])
+    ans = model.call("trace_pyfmt", fmt, *[a.to_bytes(4, "big") for a in args])
     if is_unsupported(ans):
         run.unsupported += 1
         run.count("unsupported:pyfmt")
